@@ -66,6 +66,20 @@ def gen_step(rnd, sb, desc, counter):
     prod = produced_files(desc)
     sources = [s for s in desc.sources if desc.producer(s) is None]
     x = rnd.random()
+    archives = [c for c in desc.cmds.values() if c.tool == "archive"]
+    if archives and rnd.random() < 0.08:
+        # the member list of an archive changes: members dropped, added or reordered
+        c = rnd.choice(archives)
+        virt = [i for i in c.inputs if is_virtual(i)]
+        cand = [i for i in c.inputs if not is_virtual(i)] + [f for f in sources + prod if f not in c.inputs and not f.startswith("dirs/")]
+        rnd.shuffle(cand)
+        members, seen = [], set()
+        for f in cand:
+            if os.path.basename(f) not in seen and len(members) < 4:
+                members.append(f); seen.add(os.path.basename(f))
+        members = members[:rnd.randint(1, len(members))]
+        if members and members != [i for i in c.inputs if not is_virtual(i)]:
+            return Step("rearchive", cmd=c.name, inputs=members + virt)
     if x < 0.22 and sources:
         return Step("edit_source", path=rnd.choice(sources), content="edited %d\n" % counter)
     if x < 0.27 and sources:
@@ -230,6 +244,15 @@ def apply_step(step, sb, desc):
             if not is_virtual(o) and o not in desc.sources:
                 desc.sources.append(o)   # from now on a file no command produces
         refresh_all(desc)
+    elif k == "rearchive":
+        c = desc.cmds.get(kw["cmd"])
+        if c is None or c.tool != "archive":
+            return False
+        old = list(c.inputs)
+        c.inputs = [i for i in kw["inputs"] if is_virtual(i) or desc.producer(i) is not None or i in desc.sources]
+        if not [i for i in c.inputs if not is_virtual(i)] or not all_inputs_ok(desc):
+            c.inputs = old
+            return False
     elif k == "rewire":
         c = desc.cmds.get(kw["cmd"])
         if c is None:
@@ -311,7 +334,27 @@ def check_outputs(sb, desc, target_nodes, environ=None):
             bad.append("%s: expected a directory" % path)
         if kind.startswith("symlink:") and (not os.path.islink(full) or os.readlink(full) != kind[8:]):
             bad.append("%s: expected a symlink to %s" % (path, kind[8:]))
+        if kind == "archive":
+            want = pr.archives[path]
+            got = read_archive(full)
+            if got != want:
+                bad.append("%s: archive members on disk %r, clean build gives %r" % (path, [(n, (c or b"")[:24]) for n, c in (got or [])], [(n, (c or b"")[:24]) for n, c in want]))
     return bad, pr
+
+
+def read_archive(full):
+    """[(member, bytes)] of an ar archive in order, or None."""
+    import subprocess
+    if not os.path.isfile(full):
+        return None
+    r = subprocess.run(["ar", "t", full], stdout=subprocess.PIPE, stderr=subprocess.DEVNULL)
+    if r.returncode != 0:
+        return None
+    out = []
+    for n in r.stdout.decode("utf-8", "replace").splitlines():
+        c = subprocess.run(["ar", "p", full, n], stdout=subprocess.PIPE, stderr=subprocess.DEVNULL)
+        out.append((n, c.stdout))
+    return out
 
 
 def clean_build_oracle(sb, desc, target, flavor, tag):
